@@ -330,7 +330,8 @@ class EstimateAgent(Agent):  # pylint: disable=too-many-public-methods
         Args:
             observations (``list``): :class:`.Observation` objects corresponding to the detected maneuver.
         """
-        sensor_nums = {ob.sensor_id for ob in observations}
+        # [NOTE]: Sorted, so that the stored string doesn't depend on the order the tasking jobs finished in.
+        sensor_nums = sorted({ob.sensor_id for ob in observations})
         msg = f"Maneuver Detected for RSO {self.simulation_id} by sensors {sensor_nums} at time {self.datetime_epoch}"
         self._logger.info(msg)
 
